@@ -3,9 +3,9 @@ package props
 import (
 	"testing"
 
+	"pgregory.net/rapid"
 	"verifh/refmqtt"
 	"verifh/sim"
-	"pgregory.net/rapid"
 )
 
 // C08 — a connection carries whole packets only, under short writes and
